@@ -17,7 +17,7 @@ from .rustscan import ScanError
 HERE = os.path.dirname(os.path.dirname(os.path.abspath(__file__)))
 GEN = os.environ.get('GV_GEN_DIR', os.path.join(HERE, 'gen'))
 EVID = os.environ.get('GV_EVID_DIR', os.path.join(HERE, 'evidence'))
-REPLAY = os.environ.get('GV_REPLAY_DIR', os.path.join(HERE, 'replay'))
+REPLAY = os.environ.get('GV_REPLAY_DIR', os.path.join(HERE, 'replays'))     # not 'replay': that is the ./replay script
 REPO = os.environ.get('GECS_REPO', '/repo')
 
 ORIGIN_FILES = {
